@@ -76,7 +76,8 @@ func (c *Check) add(o Obligation) {
 		}
 		ck := o.Rule + "|" + o.Construct
 		c.capCount[ck]++
-		if c.capCount[ck] > 3 {
+		if c.capCount[ck] > 1 {
+			// the same rule on the same construct: reported once (further paths/cells counted)
 			c.Suppressed++
 			return
 		}
